@@ -106,8 +106,8 @@ Proof.
     pose proof (cnt_lt_range a (d_data q)). pose proof (cnt_lt_range t (d_data q)).
     assert (MONO : cnt_lt a (d_data q) <= cnt_lt t (d_data q)).
     { (* every stamp below a is below t *)
-      unfold cnt_lt, zlen. assert (Hl : forall l, (length (filter (fun x => x <? a) l) <= length (filter (fun x => x <? t) l))%nat).
-      { induction l as [|x l IH]; simpl; [lia|]. destruct (x <? a) eqn:Q1, (x <? t) eqn:Q2; zb; simpl; lia. }
+      unfold cnt_lt, zlen. assert (Hl : forall l : list Z, (length (filter (fun x : Z => (x <? a)%Z) l) <= length (filter (fun x : Z => (x <? t)%Z) l))%nat).
+      { induction l as [|x l IH]; simpl; [lia|]. destruct (x <? a)%Z eqn:Q1, (x <? t)%Z eqn:Q2; zb; simpl; lia. }
       specialize (Hl (d_data q)). lia. }
     destruct (mem a (d_data q)), (mem t (d_data q)); cbn [a_lo a_hi];
       repeat match goal with |- context [?x =? ?y] => destruct (x =? y) eqn:?; zb end;
